@@ -132,6 +132,21 @@ func runC10(c *Ctx, idx int, o *Obs) {
 	baseText := base.Newick()
 	refRooted := r.Intn(3) == 0
 	refText := perturbedTree(r, baseText, 0, refRooted, "len")
+	// reference trees often already carry supports (PhyML, IQ-TREE output): they must not leak into the result
+	preSup := gen.Pick(r, "none", "unit", "percent")
+	if preSup != "none" {
+		rt0 := mustParse(refText)
+		for _, e := range rt0.InternalEdges() {
+			if r.Intn(4) > 0 {
+				if preSup == "unit" {
+					e.SetSupport(gen.Float(r, "unit"))
+				} else {
+					e.SetSupport(float64(r.Intn(101)))
+				}
+			}
+		}
+		refText = rt0.Newick()
+	}
 	strength := gen.Pick(r, 0, 1, 2, 4, 8, 30)
 	var boots []string
 	for i := 0; i < nboot; i++ {
@@ -144,7 +159,7 @@ func runC10(c *Ctx, idx int, o *Obs) {
 	inp := "ref: " + refText + "\nboot:\n" + strings.Join(boots, "\n")
 	o.Sample = Trunc(inp, 500)
 	o.SetFP(inp)
-	o.Class = fmt.Sprintf("refRooted=%v/strength%d", refRooted, strength)
+	o.Class = fmt.Sprintf("refRooted=%v/strength%d/presup-%s", refRooted, strength, preSup)
 	tx := ref.NewTaxa(base.Tips())
 	refM := modelOf(mustParse(refText))
 	var bootM []*ref.Tree
